@@ -13,6 +13,8 @@
 //!     `C15_chan_bounded`), a slow producer with gaps > the 50 ms poll, aggregates (nothing before EOF).
 //!   * subprocess: the real binary on pipes (paced producer, unread stdout, 0 … 200 000 lines).
 //! No real-time deadline tighter than 5 s is ever asserted.
+//! Oracle self-test: `AGVERIF_C15_MUTANT=bufsink agverif C15 …` puts a 64 KiB BufWriter in front of
+//! the sink; the stream family must then report C15/buffering-delay.
 use crate::enc::hexb;
 use crate::imp;
 use crate::rng::Rng;
@@ -187,9 +189,6 @@ impl Sink {
     pub fn newlines(&self) -> usize {
         self.0 .0.lock().unwrap().bytes.iter().filter(|b| **b == b'\n').count()
     }
-    pub fn first_write(&self) -> Option<Instant> {
-        self.0 .0.lock().unwrap().events.first().and_then(|e| e.0)
-    }
     pub fn failed_writes(&self) -> usize {
         self.0 .0.lock().unwrap().failed_writes
     }
@@ -252,7 +251,6 @@ fn err_since(pos: u64) -> String {
 #[derive(Debug, Clone, Default)]
 pub struct Obs {
     pub compiled: bool,
-    pub finished: bool,
     pub panicked: Option<String>,
     pub error_lines: usize,
     pub stderr: String,
@@ -297,7 +295,7 @@ impl Running {
             Ok(r) => r,
             Err(_) => return None,
         };
-        let mut o = Obs { finished: true, secs: self.t0.elapsed().as_secs_f64(), ..Default::default() };
+        let mut o = Obs { secs: self.t0.elapsed().as_secs_f64(), ..Default::default() };
         match r {
             Ok(c) => o.compiled = c,
             Err(()) => {
@@ -313,21 +311,6 @@ impl Running {
         o.error_lines = e.lines().filter(|l| l.starts_with("error:")).count();
         o.stderr = e.chars().take(600).collect();
         Some(o)
-    }
-    pub fn unfinished(&self) -> Obs {
-        let e = err_since(self.err0);
-        Obs {
-            compiled: true,
-            finished: false,
-            panicked: if imp::PANICS.load(Ordering::SeqCst) != self.panics0 {
-                Some(imp::LAST_PANIC.lock().map(|g| g.clone()).unwrap_or_default())
-            } else {
-                None
-            },
-            error_lines: e.lines().filter(|l| l.starts_with("error:")).count(),
-            stderr: e.chars().take(600).collect(),
-            secs: self.t0.elapsed().as_secs_f64(),
-        }
     }
 }
 
@@ -489,8 +472,6 @@ pub enum Feed {
     Finite(Vec<u8>),
     /// write the block again and again until the child goes away
     Endless(Vec<u8>),
-    /// keep stdin open and silent, close it when told
-    None,
 }
 
 #[derive(Debug, Clone, Default)]
@@ -564,12 +545,6 @@ pub fn run_proc(bin: &str, args: &[String], feed: Feed, close_after: Option<usiz
                         *fed.lock().unwrap() += b.len();
                     }
                 }
-            }
-            Feed::None => {
-                while !stop.load(Ordering::SeqCst) {
-                    std::thread::sleep(Duration::from_millis(10));
-                }
-                drop(si);
             }
         })
     };
@@ -824,7 +799,13 @@ fn check_stream(ctx: &mut Ctx, fam: &str, key: &str, c: &StreamCase, chunks: &[V
     let all: Vec<u8> = c.lines.concat();
     let gate = Gate::default();
     let sink = Sink::default();
-    let run = start(&c.query, &c.mode, gate.reader(), sink.clone());
+    // self-test of the oracle (AGVERIF_C15_MUTANT=bufsink): a buffering layer between renderer and
+    // consumer must be reported as C15/buffering-delay
+    let run = if std::env::var("AGVERIF_C15_MUTANT").map(|v| v == "bufsink").unwrap_or(false) {
+        start(&c.query, &c.mode, gate.reader(), io::BufWriter::with_capacity(1 << 16, sink.clone()))
+    } else {
+        start(&c.query, &c.mode, gate.reader(), sink.clone())
+    };
     let info = |extra: serde_json::Value| {
         json!({"query": c.query, "mode": c.mode, "lines": c.lines.len(), "kind": c.kind, "chunking": style, "chunks": chunks.len(),
                "input_hex": if all.len() <= 600 { hexb(&all) } else { format!("{}…", hexb(&all[..600])) }, "detail": extra})
@@ -1161,7 +1142,7 @@ fn check_proc_volume(ctx: &mut Ctx, bin: &str, n: usize, final_newline: bool, st
 pub fn check(ctx: &mut Ctx) {
     let thorough = ctx.thorough();
     // 1. promptness / chunking / model conformance
-    let n_stream = ctx.budget(320, 5000);
+    let n_stream = ctx.budget(960, 6000);
     for i in 0..n_stream {
         let mut r = ctx.rng.fork();
         let nlines = match r.below(10) {
@@ -1183,10 +1164,11 @@ pub fn check(ctx: &mut Ctx) {
         check_stream(ctx, "stream", &key, &c, &chunks, style, &[]);
     }
     // 2. slow producer: idle gaps longer than the 50 ms receive timeout between chunks
-    let n_slow = if thorough { 6 } else { 1 };
+    let n_slow = if thorough { 6 } else { 2 };
     for i in 0..n_slow {
         let mut r = ctx.rng.fork();
-        if let Some(c) = stream_case(&mut r, 4 + r.below(3), i % 2 == 0) {
+        let nl = 4 + r.below(3);
+        if let Some(c) = stream_case(&mut r, nl, i % 2 == 0) {
             let all: Vec<u8> = c.lines.concat();
             let (chunks, style) = chunking(&mut r, &all);
             let chunks: Vec<Vec<u8>> = if chunks.len() > 12 { c.lines.clone() } else { chunks };
@@ -1196,7 +1178,7 @@ pub fn check(ctx: &mut Ctx) {
         }
     }
     // 3. aggregates
-    for i in 0..ctx.budget(48, 600) {
+    for i in 0..ctx.budget(96, 800) {
         let mut r = ctx.rng.fork();
         check_agg(ctx, &mut r, i * ctx.nshards + ctx.shard);
     }
